@@ -1,7 +1,8 @@
 claim("C11", "exploration",
       "Complete enumeration of every torus size up to 8x8 (thorough 12x12), every source/destination pair, "
       "several three-axis representations and every outcome of the random tie-breaks, against BFS distance on "
-      "the explicit hexagonal graph; finite tables (links, routes, hexagon rings) checked completely.",
+      "the explicit hexagonal graph; finite tables (links, routes, hexagon rings) checked completely; call histories across tori "
+      "sharing a side and abandoned hexagon generators (state kept between calls).",
       "BFS oracle in /verif; random() is used by rig only as additive noise (menu of 3 values reaches every order); "
       "sizes beyond the bound are not covered.", "DESIGN.md section 4, C11")
 claim("C05", "exploration",
@@ -12,14 +13,16 @@ claim("C05", "exploration",
       "DESIGN.md section 4, C05")
 claim("C04", "exploration",
       "Every orthogonal full-mask table over 3 key bits (4 entry kinds per key, both orders), key subsets over 4 bits, every "
-      "generality-ordered list of <=3 (thorough <=4) ternary-pattern entries, the empty table and two-call histories are pushed "
+      "generality-ordered list of <=3 (thorough <=4) ternary-pattern entries, the empty table, two-call histories, multi-chip tables "
+      "with differing sources and 604800 merge-group-with-blockers tables are pushed "
       "through each real minimiser and the method chain with targets None/0/1/len-1/len/len+1; every key of the key space is looked "
       "up before and after (first match + default routing), results are re-minimised, lengths and failure reports checked.",
       "First-match lookup in /verif is the reference; key space limited to 3-4 bits and tables to <=8 entries.",
       "DESIGN.md section 4, C04")
 claim("C03", "exploration",
       "Every set of dead directed links/chips up to a bound on tiny tori, 3x2/3x3 tori, 3x3/4x4 meshes and almost-tori, plus "
-      "tree-focused fault sets (every subset of the net's own tree links dead, with extra dead links), x every source x every small "
+      "tree-focused fault sets (every subset of the net's own tree links dead, with extra dead links), walls, histories on one "
+      "Machine object whose links die between calls, x every source x every small "
       "sink set x radii, with the router's random tie-breaks owned and explored to a deviation bound; each returned tree is walked by "
       "an independent oracle (root, adjacency modulo size, live links/chips, each chip once, exact leaves, only the documented error "
       "and only on machines that are not strongly connected).",
@@ -30,21 +33,23 @@ claim("C12", "model_checking",
       "whole machine), blocks straddling level boundaries, neighbouring blocks with different core sets and second-core overlays are "
       "compressed by the real code and decoded by an independent region-word decoder (exact cover, nothing twice, strictly increasing); "
       "every chip x level for the single-chip region word; explicit-state BFS over all insertion orders of the last <=6-7 (chip, core) "
-      "pairs on the real RegionCoreTree from pre-filled near-full states, invariant checked in every state.",
+      "pairs on the real RegionCoreTree from pre-filled near-full states, invariant checked in every state; call histories, idle "
+      "chips and repeated requests.",
       "Region-word meaning as documented in the module docstring; the 2^1.2M subsets cannot be enumerated - coverage is the stated neighbourhoods.",
       "DESIGN.md section 4, C12")
 claim("C15", "exploration",
       "Every header field over its full width (8-bit tag/coordinates, all 256 port/core bytes, all 65536 commands and sequence "
       "numbers) against three backgrounds, argument presence patterns x boundary values, payload lengths 0..16/255, decoding of "
       "every data length 0..20 with every n_args, compared byte-for-byte / slot-for-slot with an encoder and decoder written from "
-      "the documented wire layout (thorough adds pairwise field combinations).",
+      "the documented wire layout (thorough adds pairwise field combinations); re-encoding and decoding histories.",
       "Fields are varied one (thorough: two) at a time, not in full product; layout reference written in /verif.",
       "DESIGN.md section 4, C15")
 claim("C16", "exploration",
       "For every format (signed/unsigned x 8/12/16/24/32/64 bits x n_frac) every breakpoint of the piecewise-constant conversion "
       "(all levels for 8/16-bit, boundary levels otherwise) with both float neighbours plus extremes is converted by the scalar, "
       "array and deprecated converters and compared with exact integer arithmetic; monotonicity, range, one-step accuracy, "
-      "fix->float->fix identity, element-wise/shape agreement and two's-complement agreement of deprecated variants are checked.",
+      "fix->float->fix identity, element-wise/shape/layout agreement, two's-complement agreement of deprecated variants, negative "
+      "n_frac, converter-creation histories and extreme words of every integer dtype are checked.",
       "Exhaustive over the breakpoint alphabet, not the float line; float64 inputs; inverse only for values a double holds exactly.",
       "DESIGN.md section 4, C16")
 claim("C19", "exploration",
